@@ -30,7 +30,7 @@ VARIANTS = [
     M('C02', 'tolerance-applied-to-aggregate', E(BC, "            result = fuzzy_greater_than(m, value, self.epsilon)", "            result = fuzzy_less_than(value, m, self.epsilon)"),
       rule='C02-FUZZ', key='verify_min_constraint'),
     M('C02', 'sloppy-int-from-any-real', E(BC, "            elif 'int' in allowed_types and actual_type == 'real':\n                result = self.get_non_integer_values_count(colname) == 0", "            elif 'int' in allowed_types and actual_type == 'real':\n                result = True"),
-      rule='C02-SEM', key='sloppy'),
+      rule='C02-SEM', key='type-table'),
     M('C02', 'failure-counted-as-pass-too', E(BS, "                if satisfied:\n                    passes += 1\n                else:\n                    failures += 1", "                passes += 1\n                if not satisfied:\n                    failures += 1"),
       rule='C02-COUNT', key='verdicts='),
     M('C02', 'unknown-kind-counted-failed', E(BS, "            else:\n                satisfied = None\n            field_results[c.kind] = satisfied", "            else:\n                satisfied = None\n                failures += 1\n            field_results[c.kind] = satisfied"),
